@@ -67,9 +67,6 @@ theorem modAcct_bal (s : St) (a : Nat) (f : Acct → Acct) (hf : ∀ x, (f x).ba
   · subst h; simp [hf]
   · simp [h]
 
-theorem modAcct_gp (s : St) (a : Nat) (f : Acct → Acct) : (modAcct s a f).gp = s.gp := rfl
-theorem setBal_gp (s : St) (a : Nat) (v : Int) : (setBal s a v).gp = s.gp := rfl
-theorem transfer_gp (s : St) (a b : Nat) (v : Int) : (transfer s a b v).gp = s.gp := rfl
 
 theorem sumBal_modAcct (s : St) (a : Nat) (f : Acct → Acct) (hf : ∀ x, (f x).bal = x.bal) (U : List Nat) :
     sumBal (modAcct s a f) U = sumBal s U :=
